@@ -69,7 +69,9 @@ def run_one(args):
         return (mid, prop, m.kind, st, str(e), [])
     except Exception as e:   # pragma: no cover
         return (mid, prop, m.kind, "crash", "%s: %s" % (type(e).__name__, e), [])
-    fails = [(o.rule, o.key, o.goal, o.detail) for o in ctx.obs if o.status == "fail"]
+    from .report import load_known
+    known = {(k.get("rule"), k.get("key")) for k in load_known() if k.get("status") == "open" and k.get("property") == prop}
+    fails = [(o.rule, o.key, o.goal, o.detail) for o in ctx.obs if o.status == "fail" and (o.rule, o.key) not in known]
     und = [(o.rule, o.key, o.goal, o.detail) for o in ctx.obs if o.status == "undecided"]
     if m.kind == "B":
         hit = [f for f in fails if not m.rules or f[0] in m.rules]
